@@ -2,7 +2,7 @@
 
 import ast
 
-from ..base import AnalysisError, Defs, U, all_params, always_exits, own_nodes
+from ..base import stmts,  AnalysisError, Defs, U, all_params, always_exits, own_nodes
 from ..paths import enum_paths
 
 IGNORED_DESTS = {"verbosity", "subcommand", "version", "help", "runner"}
@@ -84,6 +84,22 @@ def run(repo, res):
     res.rule("R34.2", "every boolean option can be switched both ways: no type=bool (bool('False') is True), no store_true with default True / store_false with default False")
     res.rule("R34.3", "--method choices equal the keys of core.estimation_methods")
     res.rule("R34.4", "the only output effect (dump(args.output)) is the last statement of the runner, after every error_exit guard and after the API call")
+    res.rule("R34.5", "a guard that rejects an option combination tests the option's presence with `is (not) None`, never by truthiness: `--max-iterations 0` and `--rescaling-intervals 0` are values the user gave, and `if args.x:` would let them through to a method that cannot use them")
+    n_g = 0
+    for q, f in repo.mods["cli"].funcs.items():
+        if not q.startswith("run_"):
+            continue
+        mod = repo.mods["cli"]
+        for st, g in stmts(f):
+            if not (isinstance(st, ast.If) and st.body and isinstance(st.body[-1], ast.Expr) and isinstance(st.body[-1].value, ast.Call) and U(st.body[-1].value.func) == "error_exit"):
+                continue
+            for n in ast.walk(st.test):
+                if isinstance(n, ast.Attribute) and isinstance(n.value, ast.Name) and n.value.id == "args":
+                    n_g += 1
+                    par = mod.parent.get(n)
+                    bare = isinstance(par, (ast.BoolOp, ast.If)) or (isinstance(par, ast.UnaryOp) and isinstance(par.op, ast.Not))
+                    res.require(not bare, "R34.5", f"cli.{q} rejection guard on --{n.attr.replace('_', '-')} tests presence, not truthiness", f"`{U(st.test)}` treats the value 0 / '' of --{n.attr.replace('_', '-')} as 'option not given': the invalid combination is accepted and an output file is written", repo.loc(f, st), U(st.test))
+    res.floor("cli_rejection_guards", n_g, 5)
     pf, subs = parse_cli(repo)
     n_opts = sum(len(v["options"]) for v in subs.values())
     res.floor("cli_options", n_opts, 15)
@@ -219,6 +235,7 @@ def run(repo, res):
 
 _BOOL = "        type=str_to_bool,\n        help=(\n            \"Should all material"
 VARIANTS = [
+    dict(name="presence-by-truthiness", mod="cli", expect="fire", rule="R34.5", old="        if args.rescaling_intervals is not None:", new="        if args.rescaling_intervals:"),
     dict(name="type-bool", mod="cli", expect="fire", rule="R34.2", old=_BOOL, new=_BOOL.replace("str_to_bool", "bool")),
     dict(name="split-disjoint-not-passed", mod="cli", expect="fire", rule="R34.1",
          old="        erase_flanks=args.erase_flanks,\n        split_disjoint=args.split_disjoint,\n", new="        erase_flanks=args.erase_flanks,\n"),
